@@ -177,6 +177,17 @@ struct C08 : Property
 		case 9: // serialize
 		case 10:
 		{
+			if (r.chance(1, 3))
+			{
+				// boundary sweep: a pad of every length shifts each kind of token (literals, numbers, keys, separators, colour escapes)
+				// across the growth points of the print buffer, so that the growth caused by exactly THAT token is the one that fails
+				std::string pad((size_t)r.range(0, 75), 'p');
+				static const char *tails[] = {",true,false,null]", ",false,{\"k\":true,\"n\":null},1.5,-7]", ",null,[true,[false]],\"s\\n\"]", ",12345678,true,{\"key\":\"v\"}]"};
+				p.ops.push_back(mk("s_doc", {}, "[\"" + pad + "\"" + tails[r.below(4)] + std::string(1, '\0')));
+				static const int sweepflags[] = {0, 32, 2 | 32, 1 | 32, 2, 1 | 2 | 8 | 32, 4 | 32, 16};
+				p.ops.push_back(mk("t_ser", {0, sweepflags[r.below(8)], (int64_t)r.below(3)}));
+				break;
+			}
 			p.ops.push_back(mk("s_doc", {}, (r.chance(1, 2) ? container_doc(r, r.chance(1, 2), n) : valid_doc(r, (int)r.range(5, 200), 4)) + std::string(1, '\0')));
 			if (r.chance(1, 2))
 				p.ops.push_back(mk("s_ser", {0, serflags[r.below(8)]}));
